@@ -2,7 +2,7 @@
    Statements only; proofs in Proofs/ObjProofs.v. *)
 From Coq Require Import ZArith QArith Qcanon List Lia Bool.
 From RV Require Import Base.Num Base.PyList Base.Vec Expr Ocp Rows Mech.Grid Mech.Intg Mech.Sampling
-     Mech.Shooting Spec.SpecDyn Spec.SpecPlace Inst Proofs.QcInst Proofs.ObjProofs.
+     Mech.Shooting Mech.Colloc Spec.SpecDyn Spec.SpecPlace Inst Proofs.QcInst Proofs.ObjProofs.
 Import ListNotations.
 Local Open Scope nat_scope.
 
@@ -64,6 +64,30 @@ Theorem C05_integral_is_scheme_quadrature :
       vadd (nth k (L_Q L) []) (iter_quad Phi Psi (nth k cg o0) h M (nth k (p_X pt) []) (vzero nq)).
 Proof. intros F OF Fl oc pt. exact (ms_quadrature Fl oc pt). Qed.
 Print Assumptions C05_integral_is_scheme_quadrature.
+
+(* DirectCollocation: the integral accumulates quad * dt * B[j] over the roots in loop order *)
+Theorem C05_dc_quadrature_accumulates :
+  forall (F : Type) (OF : Ops F) (oc : ocp) (pt : point F) k i (q : list F),
+    quad_step oc pt k i q =
+    fold_left (fun acc j => vadd acc (quad_term oc pt k i j))
+              (seq 0 (length (map (@of_Q F OF) (m_tau (o_method oc))))) q.
+Proof. reflexivity. Qed.
+Print Assumptions C05_dc_quadrature_accumulates.
+
+(* the weights integrate constants exactly iff they sum to 1.  True for legendre degree 1 and
+   radau degree 2 (exact rational points); the full statement "for every scheme" is REFUTED by
+   radau degree 1, whose single weight is 1/2 (known finding F4) *)
+Theorem C05_dc_weights_sum_examples :
+  map (fun q => this q) (@coeff_B Qc QcOps [Q2Qc (1#2)]) = [1%Q] /\
+  Qeq (this (@osum Qc QcOps (@coeff_B Qc QcOps [Q2Qc (1#3); Q2Qc 1]))) 1.
+Proof. split; vm_compute; reflexivity. Qed.
+Print Assumptions C05_dc_weights_sum_examples.
+
+Theorem C05_dc_constants_refuted :
+  exists tau : list Qc, tau = [Q2Qc 1] (* collocation_points(1, 'radau') *) /\
+    Qeq (this (@osum Qc QcOps (@coeff_B Qc QcOps tau))) (1#2).
+Proof. exists [Q2Qc 1]. split; [reflexivity|]. vm_compute. reflexivity. Qed.
+Print Assumptions C05_dc_constants_refuted.
 
 (* non-vacuity: x' = u, Euler N=2 M=1 on [0,2]; objective at_tf(x) + integral(x) + sum(u) *)
 Local Existing Instance QcOps.
